@@ -523,6 +523,7 @@ protected:
 
     virtual Action visitExtGNU_EnclosedCompoundStatementExpression(const ExtGNU_EnclosedCompoundStatementExpressionSyntax* node) override
     {
+        traverseExpression(node);
         terminal(node->openParenthesisToken(), node);
         nonterminal(node->statement());
         terminal(node->closeParenthesisToken(), node);
@@ -531,6 +532,7 @@ protected:
 
     virtual Action visitExtGNU_ComplexValuedExpression(const ExtGNU_ComplexValuedExpressionSyntax* node) override
     {
+        traverseExpression(node);
         terminal(node->operatorToken(), node);
         nonterminal(node->expression());
         return Action::Skip;
@@ -593,6 +595,7 @@ protected:
 
     virtual Action visitCallExpression(const CallExpressionSyntax* node) override
     {
+        traverseExpression(node);
         nonterminal(node->expression());
         terminal(node->openParenthesisToken(), node);
         for (auto iter = node->arguments(); iter; iter = iter->next) {
@@ -605,6 +608,7 @@ protected:
 
     virtual Action visitVAArgumentExpression(const VAArgumentExpressionSyntax* node) override
     {
+        traverseExpression(node);
         terminal(node->keyword(), node);
         terminal(node->openParenthesisToken(), node);
         nonterminal(node->expression());
@@ -616,6 +620,7 @@ protected:
 
     virtual Action visitOffsetOfExpression(const OffsetOfExpressionSyntax* node) override
     {
+        traverseExpression(node);
         terminal(node->keyword(), node);
         terminal(node->openParenthesisToken(), node);
         nonterminal(node->typeName());
@@ -627,6 +632,7 @@ protected:
 
     virtual Action visitCompoundLiteralExpression(const CompoundLiteralExpressionSyntax* node) override
     {
+        traverseExpression(node);
         terminal(node->openParenthesisToken(), node);
         nonterminal(node->typeName());
         terminal(node->closeParenthesisToken(), node);
@@ -670,6 +676,7 @@ protected:
 
     virtual Action visitExtGNU_ChooseExpression(const ExtGNU_ChooseExpressionSyntax* node) override
     {
+        traverseExpression(node);
         terminal(node->keyword(), node);
         terminal(node->openParenthesisToken(), node);
         nonterminal(node->constantExpression());
